@@ -193,6 +193,19 @@ pub enum Mode {
     C13,
 }
 
+fn mode_id(mode: Mode) -> &'static str {
+    match mode {
+        Mode::C12 => "C12",
+        Mode::C13 => "C13",
+    }
+}
+
+/// a history that delivers hundreds of messages to one object in a row: announced on disk while it runs (see
+/// engine::inflight) because a stack overflow or abort inside the sign cannot be caught in-process
+pub fn heavy(ops: &[HOp]) -> bool {
+    ops.iter().any(|o| matches!(o, HOp::Repeat { n, .. } if *n >= 100))
+}
+
 fn describe(m: &M) -> String {
     m.short()
 }
@@ -290,6 +303,7 @@ fn panic_site(p: &str) -> String {
 
 /// Run a whole history on a single sign.
 pub fn check_history(c: &HistoryCase, mode: Mode, st: &mut Stats) -> Result<(), String> {
+    let _announced = if heavy(&c.ops) { Some(crate::engine::inflight(mode_id(mode), "walk", || serde_json::to_value(c).unwrap_or_default())) } else { None };
     let mut sign = VirtualSign::new(Address(c.addr), flip(c.automatic));
     let mut model = SignModel::new(c.addr, c.automatic);
     let mut entered_receiving = false;
@@ -371,6 +385,7 @@ pub struct BusHistoryCase {
 }
 
 pub fn check_bus_history(c: &BusHistoryCase, st: &mut Stats) -> Result<(), String> {
+    let _announced = if heavy(&c.ops) { Some(crate::engine::inflight("C12", "bus-walk", || serde_json::to_value(c).unwrap_or_default())) } else { None };
     // distinct addresses are a documented precondition of a bus
     let mut seen = std::collections::HashSet::new();
     let signs: Vec<(u16, bool)> = c.signs.iter().filter(|(a, _)| seen.insert(*a)).cloned().collect();
@@ -785,9 +800,14 @@ pub struct DeepCase {
     /// previous chunk ended (16-bit, wrapping), as a sender numbering a very long item would
     #[serde(default)]
     pub in_sequence: Option<(u8, u32)>,
+    /// with `in_sequence`: every chunk after the first carries this same non-zero offset (a sender that never numbers
+    /// its chunks), so the sign never sees a second offset 0 and its buffer only grows
+    #[serde(default)]
+    pub fixed_offset: Option<u16>,
 }
 
 pub fn check_deep(c: &DeepCase, mode: Mode, st: &mut Stats) -> Result<(), String> {
+    let _announced = crate::engine::inflight(mode_id(mode), "deep-counter", || serde_json::to_value(c).unwrap_or_default());
     let addr = 0x0102u16;
     let mut sign = VirtualSign::new(Address(addr), flip(c.automatic));
     let mut model = SignModel::new(addr, c.automatic);
@@ -807,7 +827,10 @@ pub fn check_deep(c: &DeepCase, mode: Mode, st: &mut Stats) -> Result<(), String
         for k in 0..n {
             let data: Vec<u8> = (0..len as usize).map(|i| (k as u8).wrapping_add(i as u8)).collect();
             deliver(&mut sign, &mut model, M::Data { off, data }, k % 1024 == 1023, st).map_err(|e| format!("in-sequence chunk {k} at offset {off}: {e}"))?;
-            off = off.wrapping_add(len as u16);
+            off = match c.fixed_offset {
+                Some(o) => o,
+                None => off.wrapping_add(len as u16),
+            };
             sent += 1;
         }
     }
@@ -849,20 +872,30 @@ fn run_deep(ctx: &Ctx, mode: Mode) {
         for d in [-1i64, 0, 1, 2] {
             let pages = (base as i64 + d) as u32;
             for count_delta in [0i32, 1] {
-                cases.push(DeepCase { block: b.clone(), pages, count_delta, automatic: d % 2 == 0, in_sequence: None });
+                cases.push(DeepCase { block: b.clone(), pages, count_delta, automatic: d % 2 == 0, in_sequence: None, fixed_offset: None });
             }
         }
     }
     for (len, n) in [(16u8, 4097u32), (16, 4200), (255, 258), (255, 300), (17, 3900), (1, 65537), (0, 300)] {
         for b in [Block::Raw(tiny_block(12, 8)), Block::Real(0)] {
-            cases.push(DeepCase { block: b, pages: 0, count_delta: (len % 2) as i32, automatic: false, in_sequence: Some((len, n)) });
+            cases.push(DeepCase { block: b, pages: 0, count_delta: (len % 2) as i32, automatic: false, in_sequence: Some((len, n)), fixed_offset: None });
         }
+    }
+    // a buffer that only grows: one offset-0 chunk, then n-1 chunks that all carry offset 16 - around 64 KiB of buffered
+    // data, so that a buffer that is capped, cleared or wrapped there leaves a tail that looks like a page
+    for n in 4090u32..=4110 {
+        for b in [Block::Raw(tiny_block(12, 8)), Block::Raw(tiny_block_max3000(20, 8, 8)), Block::Real(5)] {
+            cases.push(DeepCase { block: b, pages: 0, count_delta: 0, automatic: n % 2 == 0, in_sequence: Some((16, n)), fixed_offset: Some(16) });
+        }
+    }
+    for (len, n) in [(255u8, 257u32), (255, 258), (255, 259), (128, 513), (128, 514)] {
+        cases.push(DeepCase { block: Block::Raw(tiny_block(12, 8)), pages: 0, count_delta: 0, automatic: false, in_sequence: Some((len, n)), fixed_offset: Some(0x0100) });
     }
     crate::engine::par_range(ctx, "deep-counter", cases.len() as u64, |i, st| {
         let c = &cases[i as usize];
         check_deep(c, mode, st).map_err(|m| (serde_json::to_value(c).unwrap(), m))
     });
-    ctx.part_done("deep-counter", true, json!({"cases": cases.len(), "what": "pixel transfers of 65536/cpp - 1 .. + 2 complete pages for 1, 2, 3 and 4 chunks per page, announced count right / off by one; uninterrupted in-sequence runs whose running offset passes 0xFFFF (16-, 17-, 255-, 1- and 0-byte chunks)"}));
+    ctx.part_done("deep-counter", true, json!({"cases": cases.len(), "what": "pixel transfers of 65536/cpp - 1 .. + 2 complete pages for 1, 2, 3 and 4 chunks per page, announced count right / off by one; uninterrupted in-sequence runs whose running offset passes 0xFFFF (16-, 17-, 255-, 1- and 0-byte chunks); runs of 4090..=4110 chunks that all carry the same non-zero offset (the buffer passes 64 KiB without ever seeing a second offset 0)"}));
 }
 
 pub fn run(ctx: &Ctx, c13: bool) {
